@@ -221,16 +221,19 @@ def run_conflict(rec, case):
         ds, expect = sgrid_ds(case["kind"], case["pads"], case["sp"], case["ck"], case["cv"], case["ni"])
     else:
         ds, expect = comodo_ds({"X": (3, {"center": None, "left": None})}, 0, False)
-    c2 = dict(case, conflict=True)
-    rec.case(tuple(sorted((str(k), str(v)) for k, v in c2.items())), True, sample=c2)
-    user = {"X": {"center": expect["X"]["center"]}}
-    try:
-        with warnings.catch_warnings():
-            warnings.simplefilter("ignore")
-            g = Grid(ds, coords=user, periodic=False)
-    except Exception:
-        return
-    rec.violation("conflict", "user-coords-merged-with-parsed", c2, "raise", {ax: dict(a.coords) for ax, a in g.axes.items()})
+    first = sorted(expect)[0]
+    for which, user in (("same-axis", {first: {"center": expect[first]["center"]}}),
+                        ("other-axis", {"Q": {"center": expect[first]["center"]}}),
+                        ("same-and-other", {first: dict(expect[first]), "Q": {"center": expect[first]["center"]}})):
+        c2 = dict(case, conflict=which)
+        rec.case(tuple(sorted((str(k), str(v)) for k, v in c2.items())), True, sample=c2)
+        try:
+            with warnings.catch_warnings():
+                warnings.simplefilter("ignore")
+                g = Grid(ds, coords=user, periodic=False)
+        except Exception:
+            continue
+        rec.violation("conflict", "user-coords-merged-with-parsed:" + which, c2, "raise", {ax: dict(a.coords) for ax, a in g.axes.items()})
 
 
 def comodo_fallback(rec):
@@ -280,5 +283,6 @@ def replay_case(case, seed, rec):
     case = dict(case)
     if case.pop("conflict", False):
         run_conflict(rec, case)
+        rec.viol = rec.viol[:1]
     else:
         run_case(rec, case)
